@@ -8,6 +8,8 @@ package main
 //   packets - discovery packets from the real encoder, then corruption into decodePacket
 //   base    - hostile base-protocol (devp2p) messages: Peer.handle / readProtocolHandshake directly, a Peer's run loop
 //             over a pipe, the real Server over RLPx on loopback with an honest peer that must stay served (base.go)
+//   auth    - hostile messages of the encryption handshake that are well-formed ECIES encryptions of hostile fields,
+//             against the listening and the dialing side of the transport and of the real Server (auth.go)
 //   peers   - one node, an honest peer ahead of it, a misbehaving peer, an idle honest peer: the downloader synchronises
 //             with the honest one while the other interferes (peers.go)
 import (
@@ -29,6 +31,7 @@ func main() {
 		"frames": runFrames, "packets": runPackets, "session": runSession,
 		"base": runBaseParent, "base-child": runBaseChild,
 		"peers": runPeersParent, "peers-child": runPeersChild,
+		"auth": runAuthParent, "auth-child": runAuthChild,
 	})
 }
 
